@@ -152,7 +152,11 @@ def run_roundtrip(desc):
     if desc.get("value_col") and dtc is None:
         df = df.rename(columns={"value": desc["value_col"]})
     csv = bool(desc.get("csv"))
-    am = bool(desc["sparse"])
+    am = bool(desc["sparse"]) or bool(desc.get("allow_missing_anyway"))
+    if am and not desc["sparse"]:
+        cl.append("dense-with-allow_missing")
+    if xd["mode"] == "float" and any(isinstance(v, float) and np.isinf(v) for v in xd.get("vals", [])):
+        cl.append("has-infinite-entry")
     with tempfile.TemporaryDirectory(prefix="verif_c11_") as tmp:
         if csv:
             df, _ = frames.through_csv(df, tmp)
@@ -180,7 +184,11 @@ def run_roundtrip(desc):
 def roundtrip_cases(draw):
     U = draw(gen.universes(min_dims=draw(st.sampled_from([1, 2, 2, 3])), max_dims=3, max_len=5))
     mode = draw(st.sampled_from(["coded", "coded", "float"]))
-    x = draw(gen.arrays(U, modes=(mode,), min_dims=1))
+    elems = None
+    if mode == "float" and draw(st.booleans()):
+        # "all arrays": entries may be infinite (divisions by zero shares, unbounded capacities), and zeros matter for sparse
+        elems = st.one_of(gen.nice_floats, st.sampled_from([0.0, 0.0, float("inf"), float("-inf")]))
+    x = draw(gen.arrays(U, modes=(mode,), min_dims=1, elems=elems))
     letters = x["letters"]
     sparse = draw(st.sampled_from([False, False, True]))
     csv = draw(st.booleans())
@@ -208,6 +216,8 @@ def roundtrip_cases(draw):
         "value_col": draw(st.sampled_from([None, None, "Amount (t)", "v"])),
         "csv": csv,
         "target_order": list(draw(st.permutations(letters))),
+        # the flag that tolerates gaps must change nothing when there are none
+        "allow_missing_anyway": draw(st.integers(0, 3)) == 0,
     }
     return desc
 
